@@ -6,7 +6,7 @@ rsync -a --exclude .git /repo/ $SCR/
 if ! (cd $SCR && patch -p1 -s --no-backup-if-mismatch < /verif/seeded/$ID/patch.diff); then echo "$ID PATCH-FAILED"; rm -rf $SCR; exit 2; fi
 for P in "$@"; do
   OUT=$(cd /verif && ./bin/gowp --prop $P --repo $SCR --no-evidence --workdir $SCR.work 2>&1); RC=$?
-  if [ -d "/verif/bounded/$(echo "$P" | tr 'A-Z' 'a-z')" ] && [ $RC -ne 3 ]; then
+  if /verif/tools/bounded.sh --has "$P" && [ $RC -ne 3 ]; then
     B="$SCR.bounded.json"
     if /verif/tools/bounded.sh "$P" "$SCR" quick "$B" >/dev/null 2>&1 || [ -s "$B" ]; then
       BOUT=$(python3 /verif/tools/merge_bounded.py "$P" "$B"); [ $? -eq 1 ] && RC=1
